@@ -2084,6 +2084,12 @@ class PseudoNetCDFFile(PseudoNetCDFSelfReg, object):
                         varo[sliceoi], axis=concatax))
                 newvals = np.ma.concatenate(point_arrays, axis=concatax)
             else:
+                # integers keep a length-1 axis; as basic slices they cannot
+                # be mixed with an index list by numpy's advanced indexing,
+                # which would move the list axis to the front
+                sliceo = tuple(
+                    slice(si, si + 1 if si != -1 else None)
+                    if np.isscalar(si) else si for si in sliceo)
                 newvals = varo[sliceo]
             try:
                 newvaro[...] = newvals
